@@ -177,3 +177,230 @@ Example vararg_loop_two_optional : ex_vararg_check [VChar 97; VChar 98; VChar 99
 Proof. ex_vararg_solve. Qed.
 Example vararg_loop_four_optional : ex_vararg_check [VChar 97; VChar 98; VChar 99; VChar 100; VChar 101].
 Proof. ex_vararg_solve. Qed.
+
+(* ====================================================================================== loop_space
+   THE WHOLE-LOOP INDUCTION (work package c04c; Proofs/LoopSpace.v, LoopExec.v, LoopEval.v,
+   LoopWalk.v, LoopBuiltins.v).  The theorems above are about single instructions; here the
+   compile-and-run theorem of the closure fragment (C01_fragment3_correct: lambda, closures, calls
+   by name, recursion through a global, if, define / set! on globals, builtins) is re-proved with
+   the stack pointer of EVERY intermediate state bounded by a static measure of the reference
+   derivation in which a call in TAIL position does not add anything per call.               *)
+From Coq Require Import String.
+From MW Require Import Proofs.RunProofs Proofs.CompileCorrect Proofs.FrameSteps Proofs.CompileCorrect2 Proofs.Closures3
+  Proofs.LoopSpace Proofs.LoopExec Proofs.LoopEval Proofs.LoopWalk.
+From MW Require Proofs.LoopBuiltins.
+
+(* [hw ob n s]: the high-water mark of sp over the states s = s_0 .. s_n of the first n
+   instructions.  It bounds every state reached, and it is attained. *)
+Theorem C04_hw_unfold : forall ob n s, hw ob (S n) s =
+  match Vm.run_one ob s with ROk false s' => N.max (sp s) (hw ob n s') | _ => sp s end.
+Proof. reflexivity. Qed.
+Print Assumptions C04_hw_unfold.
+Theorem C04_hw_bounds : forall ob n s k s', (k <= n)%nat -> steps ob k s = Some s' -> sp s' <= hw ob n s.
+Proof. exact hw_bounds. Qed.
+Print Assumptions C04_hw_bounds.
+Theorem C04_hw_attained : forall ob n s s1, steps ob n s = Some s1 ->
+  exists k s', (k <= n)%nat /\ steps ob k s = Some s' /\ sp s' = hw ob n s.
+Proof. exact hw_attained. Qed.
+Print Assumptions C04_hw_attained.
+
+(* The static measure: [dref3 bsem tail sc lv rho e r rho' dl dn dt] is the reference judgement
+   ref_eval3 of the closure fragment (Proofs/Closures3.v) for an expression in tail position or
+   not, indexed by  dn (growth above the stack pointer at entry, not counting what procedures
+   called in tail position do),  dt (how far the frames of TAIL-called procedures reach above the
+   BASE of the current frame)  and  dl (a certain growth).  It is the same judgement: forgetting
+   the measures gives ref_eval3, and every reference derivation has measures. *)
+Theorem C04_depth_sound : forall bsem tl sc lv rho e r rho' dl dn dt,
+  dref3 bsem tl sc lv rho e r rho' dl dn dt -> ref_eval3 bsem sc lv rho e r rho'.
+Proof. exact dref3_ref. Qed.
+Print Assumptions C04_depth_sound.
+Theorem C04_depth_total : forall bsem sc lv rho e r rho', ref_eval3 bsem sc lv rho e r rho' ->
+  forall tl, exists dl dn dt, dref3 bsem tl sc lv rho e r rho' dl dn dt.
+Proof. exact ref_dref3. Qed.
+Print Assumptions C04_depth_total.
+(* THE rule: a call of a closure with parameters ps.  In tail position (tl = true) the body's
+   measures enter dt by a MAXIMUM — len args + 4 + dnb above the base, whatever the number of
+   tail calls that preceded; not in tail position the same quantity is counted above the stack
+   pointer at the call (the hypothesis of C04_exec_bounded_code asks sp + dt <= hi there), and
+   the certain growth dl includes the callee's frame. *)
+Theorem C04_depth_call_rule : forall bsem tl sc lv rho f args rs rho1 ps cs body cvals rho2 r rho3
+    dla dna dlf dnf dtf dlb dnb dtb,
+  drefs3 bsem sc lv rho args rs rho1 dla dna ->
+  dref3 bsem false sc lv rho1 f (R3Clo ps cs body cvals) rho2 dlf dnf dtf ->
+  List.length rs = List.length ps ->
+  dref3 bsem true (ps ++ cs) (rs ++ cvals) rho2 body r rho3 dlb dnb dtb ->
+  dref3 bsem tl sc lv rho (YApp f args) r rho3
+        (N.max (N.max dla (len args + 1 + dlf)) (if tl then 0 else len args + 4 + dlb))
+        (N.max dna (len args + 1 + N.max dnf dtf))
+        (N.max (len args + 4 + dnb) dtb).
+Proof. exact D3_app_closure. Qed.
+Print Assumptions C04_depth_call_rule.
+
+(* the outcomes: ok_n3 / ok_t3 of C01 plus  lo <= hw <= hi  for the same run *)
+Theorem C04_ok_n3b_unfold : forall ob m lp q r rho' lo hi, ok_n3b ob m lp q r rho' lo hi <->
+  exists n m', steps ob n m = Some m' /\ (lo <= hw ob n m /\ hw ob n m <= hi) /\ frame2 m m' /\ minv m' /\
+    ip m' = (lp, q) /\ vrep3 m' (acc m') r /\ genv_rel3 rho' m'.
+Proof. reflexivity. Qed.
+Print Assumptions C04_ok_n3b_unfold.
+Theorem C04_ok_t3b_unfold : forall ob m r rho' lo hi, ok_t3b ob m r rho' lo hi <->
+  exists n m' k e i b, steps ob n m = Some m' /\ (lo <= hw ob n m /\ hw ob n m <= hi) /\
+    frame_at m k e i b /\ rext m m' /\ minv m' /\ vrep3 m' (acc m') r /\ genv_rel3 rho' m' /\
+    sp m' = bp m - k /\ ep m' = e /\ ip m' = i /\ bp m' = b /\ out_log m' = out_log m /\
+    (forall j, j <= bp m - k -> sget m' j = sget m j).
+Proof. reflexivity. Qed.
+Print Assumptions C04_ok_t3b_unfold.
+Theorem C04_tbound_unfold : forall tail m dt hi, tbound tail m dt hi <->
+  if tail then exists k e i b, frame_at m k e i b /\ bp m + 4 <= sp m /\ bp m - k + dt <= hi
+  else sp m + dt <= hi.
+Proof. reflexivity. Qed.
+Print Assumptions C04_tbound_unfold.
+
+(* exec_bounded, code level (by induction on the indexed derivation): for every derivation and
+   EVERY successful compilation of e with the tail flag of the derivation, on every later machine
+   holding the code (hypotheses of C01_fragment3_correct), for every hi with  sp + dn <= hi  and
+   (base of the current frame, resp. sp) + dt <= hi:  the code runs to its end (or, tail code, to
+   the state the RET of the frame produces) and the high-water mark of sp over the run is between
+   sp + dl and hi. *)
+Theorem C04_exec_bounded_code : forall ob bsem,
+  (forall b, builtin_ok ob bsem b) -> (forall b, builtin_envs ob bsem b) ->
+  forall tl sc lv rho e r rho' dl dn dt, dref3 bsem tl sc lv rho e r rho' dl dn dt ->
+  forall f l s l' s' code, wf3 e sc -> (cell_size (cell_of3 e) < f)%nat -> hdr3 l sc s -> minv s ->
+    compile_expression f l tl (cell_of3 e) s = ROk l' s' -> fwd l' = fwd l ++ code ->
+  forall m lp bc hi,
+    cext s' m -> minv m -> code_in m lp bc -> seg bc (len (fwd l)) code -> ip m = (lp, len (fwd l)) ->
+    genv_rel3 rho m -> lrel3 lv m -> sp m + dn <= hi -> tbound tl m dt hi ->
+    ok_n3b ob m lp (len (fwd l) + len code) r rho' (sp m + dl) hi \/
+    (tl = true /\ ok_t3b ob m r rho' (sp m + dl) hi).
+Proof. exact compile_correct3b. Qed.
+Print Assumptions C04_exec_bounded_code.
+
+(* exec_bounded, Vm::eval: a top-level expression (compiled in tail position of the entry
+   procedure, whose frame has base sp s): HALT exit as in C01_eval_fragment3, and EVERY state of
+   the run has sp <= sp s + max (4 + dn) dt, and some state has sp >= sp s + 4 + dl. *)
+Theorem C04_exec_bounded : forall ob bsem,
+  (forall b, builtin_ok ob bsem b) -> (forall b, builtin_envs ob bsem b) ->
+  forall e rho r rho' s dl dn dt,
+  wf3 e [] -> dref3 bsem true [] [] rho e r rho' dl dn dt -> minv s -> genv_rel3 rho s ->
+  transform_expr TRANSFORM_FUEL s (cell_of3 e) = Ok (cell_of3 e) ->
+  exists k m m0 m6,
+    prepare_eval (cell_of3 e) s = ROk tt m0 /\ sp m0 = sp s /\ steps ob k m0 = Some m6 /\
+    Vm.run_one ob m6 = ROk true m /\
+    (forall fuel, (S k <= fuel)%nat -> eval ob fuel (cell_of3 e) s = halt_result m) /\
+    vrep3 m (acc m) r /\ genv_rel3 rho' m /\ minv m /\ sp m = sp s /\
+    (forall j s', (j <= k)%nat -> steps ob j m0 = Some s' -> sp s' <= sp s + N.max (4 + dn) dt) /\
+    (exists j s', (j <= k)%nat /\ steps ob j m0 = Some s' /\ sp s + 4 + dl <= sp s').
+Proof. exact exec_bounded. Qed.
+Print Assumptions C04_exec_bounded.
+
+(* ------------------------------------------------------------------------------------ the loop
+   walk_def  = (define walk (lambda (l) (if l (walk (l)) 'done)))      a self call in tail position
+   cnt_def   = (define cnt (lambda (l) (if l ((lambda (r) r) (cnt (l))) 'done)))   the twin: the
+               recursive call is an OPERAND
+   chain n   = #f for n = 0, a thunk (lambda () t) whose captured t is chain (n-1) otherwise: the
+               "list" the loop walks ((l) is its cdr, #f its end).  A quoted list walked with cdr
+               is NOT available: C04_builtin_ok_cdr_refuted below.
+   No builtin procedure occurs, so the theorems hold for every builtin table (bsem_none).       *)
+Theorem C04_programs_are_the_texts :
+  parses_to (S_ "(define walk (lambda (l) (if l (walk (l)) 'done)))"%string) walk_def /\
+  parses_to (S_ "(walk c)"%string) walk_call /\
+  parses_to (S_ "(define cnt (lambda (l) (if l ((lambda (r) r) (cnt (l))) 'done)))"%string) cnt_def /\
+  parses_to (S_ "(if (cnt c) 'yes 'no)"%string) cnt_top /\
+  parses_to (S_ "(define mk (lambda (t) (lambda () t)))"%string) mk_def /\
+  parses_to (S_ "(define c #f)"%string) c_def /\
+  parses_to (S_ "(set! c (mk c))"%string) c_step.
+Proof. exact programs_parse. Qed.
+Print Assumptions C04_programs_are_the_texts.
+
+(* the measures of the loop body do not depend on the number of iterations *)
+Theorem C04_walk_depth_constant : forall bsem rho, rho (S_ "walk"%string) = Some walk_clo -> forall n,
+  exists dl dn dt, dref3 bsem true [S_ "l"%string] [chain n] rho walk_body v_done rho dl dn dt /\ dn <= 4 /\ dt <= 9.
+Proof. exact walk_body_depth. Qed.
+Print Assumptions C04_walk_depth_constant.
+
+(* C04 loop_space: on every machine whose globals walk and c hold the procedure and a chain of n
+   thunks, (walk c) — n iterations of the loop, every one a TCALL — evaluates to `done` and NO
+   state of the run has its stack pointer more than 9 slots above the start, whatever n. *)
+Theorem C04_loop_space : forall ob bsem,
+  (forall b, builtin_ok ob bsem b) -> (forall b, builtin_envs ob bsem b) ->
+  forall n rho s,
+  rho (S_ "walk"%string) = Some walk_clo -> rho (S_ "c"%string) = Some (chain n) -> minv s -> genv_rel3 rho s ->
+  transform_expr TRANSFORM_FUEL s (cell_of3 walk_call) = Ok (cell_of3 walk_call) ->
+  exists k m m0 m6,
+    prepare_eval (cell_of3 walk_call) s = ROk tt m0 /\ sp m0 = sp s /\ steps ob k m0 = Some m6 /\
+    Vm.run_one ob m6 = ROk true m /\
+    (forall fuel, (S k <= fuel)%nat -> eval ob fuel (cell_of3 walk_call) s = halt_result m) /\
+    vrep3 m (acc m) v_done /\ genv_rel3 rho m /\ minv m /\ sp m = sp s /\
+    (forall j s', (j <= k)%nat -> steps ob j m0 = Some s' -> sp s' <= sp s + 9).
+Proof. exact walk_loop_space. Qed.
+Print Assumptions C04_loop_space.
+
+(* the twin grows: some state of the run of (if (cnt c) 'yes 'no) has its stack pointer at least
+   9 + 5 n slots above the start (one frame of 5 slots per pending call), so the bound above is
+   not an artefact of the measure *)
+Theorem C04_nontail_grows : forall ob bsem,
+  (forall b, builtin_ok ob bsem b) -> (forall b, builtin_envs ob bsem b) ->
+  forall n rho s,
+  rho (S_ "cnt"%string) = Some cnt_clo -> rho (S_ "c"%string) = Some (chain n) -> minv s -> genv_rel3 rho s ->
+  transform_expr TRANSFORM_FUEL s (cell_of3 cnt_top) = Ok (cell_of3 cnt_top) ->
+  exists k m m0 m6,
+    prepare_eval (cell_of3 cnt_top) s = ROk tt m0 /\ sp m0 = sp s /\ steps ob k m0 = Some m6 /\
+    Vm.run_one ob m6 = ROk true m /\
+    (forall fuel, (S k <= fuel)%nat -> eval ob fuel (cell_of3 cnt_top) s = halt_result m) /\
+    vrep3 m (acc m) (R3Base (RDatum (CSym (S_ "yes"%string)))) /\ sp m = sp s /\
+    (exists j s', (j <= k)%nat /\ steps ob j m0 = Some s' /\ sp s + 9 + 5 * N.of_nat n <= sp s').
+Proof. exact cnt_stack_grows. Qed.
+Print Assumptions C04_nontail_grows.
+
+(* The hypotheses hold on the real machine: [chain_session n] runs, from `vm_empty 8192` with the
+   builtin table loaded, the forms walk_def, cnt_def, mk_def, c_def and n times (set! c (mk c))
+   (each must end with Done and be left alone by the macro expander); the state it returns
+   satisfies minv and represents walk, cnt, mk and c = chain n — for every n. *)
+Theorem C04_chain_session_ok : forall n s, chain_session n = Some s ->
+  minv s /\ exists rho, genv_rel3 rho s /\
+    rho (S_ "walk"%string) = Some walk_clo /\ rho (S_ "cnt"%string) = Some cnt_clo /\
+    rho (S_ "mk"%string) = Some mk_clo /\ rho (S_ "c"%string) = Some (chain n).
+Proof. exact chain_session_ok. Qed.
+Print Assumptions C04_chain_session_ok.
+
+Theorem C04_loop_space_session : forall n s, chain_session n = Some s ->
+  transform_expr TRANSFORM_FUEL s (cell_of3 walk_call) = Ok (cell_of3 walk_call) ->
+  exists k m m0 m6,
+    prepare_eval (cell_of3 walk_call) s = ROk tt m0 /\ sp m0 = sp s /\ steps other_builtin k m0 = Some m6 /\
+    Vm.run_one other_builtin m6 = ROk true m /\
+    (forall fuel, (S k <= fuel)%nat -> eval other_builtin fuel (cell_of3 walk_call) s = halt_result m) /\
+    vrep3 m (acc m) v_done /\ minv m /\ sp m = sp s /\
+    (forall j s', (j <= k)%nat -> steps other_builtin j m0 = Some s' -> sp s' <= sp s + 9).
+Proof. exact walk_session_space. Qed.
+Print Assumptions C04_loop_space_session.
+
+Theorem C04_nontail_grows_session : forall n s, chain_session n = Some s ->
+  transform_expr TRANSFORM_FUEL s (cell_of3 cnt_top) = Ok (cell_of3 cnt_top) ->
+  exists k m m0 m6,
+    prepare_eval (cell_of3 cnt_top) s = ROk tt m0 /\ sp m0 = sp s /\ steps other_builtin k m0 = Some m6 /\
+    Vm.run_one other_builtin m6 = ROk true m /\
+    (forall fuel, (S k <= fuel)%nat -> eval other_builtin fuel (cell_of3 cnt_top) s = halt_result m) /\
+    vrep3 m (acc m) (R3Base (RDatum (CSym (S_ "yes"%string)))) /\ sp m = sp s /\
+    (exists j s', (j <= k)%nat /\ steps other_builtin j m0 = Some s' /\ sp s + 9 + 5 * N.of_nat n <= sp s').
+Proof. exact cnt_session_grows. Qed.
+Print Assumptions C04_nontail_grows_session.
+
+(* FINDING: the builtin hypothesis of the fragment theorems (builtin_ok, C01) is FALSE for cdr:
+   cdr answers the address in the cdr FIELD of the pair cell, which may hold a pointer cell
+   (get_as_cell follows it), while vrep demands at most one indirection.  So a loop walking a
+   quoted list with cdr is outside the proved fragment, and the loop above is driven by closures. *)
+Theorem C04_builtin_ok_cdr_refuted : forall bsem r,
+  bsem LoopBuiltins.B_CDR [RDatum (CPair (CBool true) CNil)] = Some r ->
+  ~ builtin_ok other_builtin bsem LoopBuiltins.B_CDR.
+Proof. exact LoopBuiltins.builtin_ok_cdr_refuted. Qed.
+Print Assumptions C04_builtin_ok_cdr_refuted.
+
+(* Non-vacuity, on the model machine (vm_compute; `measures n` = for the state of chain_session n:
+   (hw - sp s, value, final sp) of (walk c) and of (if (cnt c) 'yes 'no), both checked to be left
+   alone by the macro expander — the remaining hypothesis of the two _session theorems): chains of
+   1, 5 and 50 thunks.  The loop: the SAME maximum 9 = the proved bound; the twin: 9 + 5 n. *)
+Example C04_loop_space_1 : measures 1 = Some ((9, CSym (S_ "done"%string), 0), (14, CSym (S_ "yes"%string), 0)).
+Proof. exact measures_1. Qed.
+Example C04_loop_space_5 : measures 5 = Some ((9, CSym (S_ "done"%string), 0), (34, CSym (S_ "yes"%string), 0)).
+Proof. exact measures_5. Qed.
+Example C04_loop_space_50 : measures 50 = Some ((9, CSym (S_ "done"%string), 0), (259, CSym (S_ "yes"%string), 0)).
+Proof. exact measures_50. Qed.
